@@ -3,8 +3,9 @@
    of Model/Parser.v: on enumeration types every schema literal read from a file is kept as such, on integer-only types every
    valid integer text is read as that integer; the deviations are recorded with witnesses.  Everything else is decided by the
    document-level correspondence (documents generated from the schema independently of the library). *)
-From MX Require Import Spec.CharRe Model.SimpleType Model.SimpleTypeThms Model.Parser Gen.SimpleTypes.
-From Coq Require Import List String NArith ZArith Bool.
+From MX Require Import Spec.CharRe Model.SimpleType Model.SimpleTypeThms Model.Parser Gen.SimpleTypes Gen.Code
+  Spec.Particle Spec.Deriv Spec.Equiv Gen.Names Gen.Schema Gen.Templates Gen.Lib Model.Tables Model.AbsSeq Model.AbsSeqC02 Model.Classes Model.SeqMachine Model.AbsBag.
+From Coq Require Import List String NArith ZArith Bool Sorting.Permutation.
 Import ListNotations.
 Open Scope string_scope.
 Definition lxrows : list (string * string * option rcls * option xr) :=
@@ -15,10 +16,58 @@ Section WithPython.
      by the attribute ladder and stored unchanged *)
   Theorem C09_enum_literals_read : forall t c r base pres e es pat ml mi ma me lits lit,
     In (t, c, Some r, Some (XRestr base pres (e :: es) pat ml mi ma me)) lxrows -> is_enum_r r = Some lits -> In lit lits -> strip (cp lit) = cp lit ->
-    text_ladder py_float py_int_model r (cp lit) = LValue (VStr (cp lit)) /\ attr_ladder py_float py_int_model r (cp lit) = LValue (VStr (cp lit)).
-  Proof. intros. split; [apply text_ladder_enum with lits; auto|apply attr_ladder_enum with lits; auto]. Qed.
+    text_ladder py_float py_int_model parser_text_ladder r (cp lit) = LValue (VStr (cp lit)) /\ attr_ladder py_float py_int_model parser_attr_ladder r (cp lit) = LValue (VStr (cp lit)).
+  Proof.
+    intros. assert (T: parser_text_ladder = [(CId, [PTypeError]); (CFloat, [PTypeError]); (CInt, [])]) by reflexivity.
+    assert (A: parser_attr_ladder = [(CId, [PTypeError; PValueError]); (CInt, [PValueError]); (CFloat, [])]) by reflexivity. rewrite T, A.
+    split; [apply text_ladder_enum with lits; auto|apply attr_ladder_enum with lits; auto].
+  Qed.
+  (* the parser keeps no state between documents and attaches children in file order: read from the source by the translator *)
+  Theorem C09_parser_source : tr_parser_ok = true.
+  Proof. reflexivity. Qed.
 End WithPython.
 Print Assumptions C09_enum_literals_read.
+(* ---- children: the parser attaches the children of a node with add_child, in file order ---- *)
+Definition parse_children (t:stree) (w:list positive) : mst := mrun t (map MAdd w).
+Lemma cm_rows_ok9 : forallb cm_row_ok cm_rows = true.
+Proof. vm_compute. reflexivity. Qed.
+(* valid files: for every element type of the sequence class and EVERY child sequence the SCHEMA allows, every add succeeds,
+   the final check passes and the children are emitted in the order of the file *)
+Theorem C09_valid_children_read_seq : forall key x l w, In (key, Some x, Some l) cm_rows -> Classes.is_seq l = true -> Lang (re_of x) w ->
+  exists t, stree_of l = Some t /\ Forall (fun o => o = MOk) (mouts (minit t) (map MAdd w)) /\ verdict_ok (parse_children t w) = true /\ AbsSeq.names (AbsSeq.ordered (tree (parse_children t w))) = w.
+Proof.
+  intros key x l w I S L. destruct (is_seq_parts l S) as (t & St & W & ND). exists t. split; auto.
+  apply (proj1 (cm_row_sound key x l (forallb_In _ _ _ cm_rows_ok9 I))) in L. apply (stree_of_lang l t St) in L.
+  destruct (C02_seq_gen t W ND w 0 L) as (s' & E & R & N). destruct (mrun_adds w (minit t) s' E) as (A & B & D).
+  unfold parse_children, mrun. rewrite A. split; [|split]; auto. unfold verdict_ok. fold (mrun t (map MAdd w)). unfold mrun. rewrite A, R. auto.
+Qed.
+Print Assumptions C09_valid_children_read_seq.
+Theorem C09_valid_children_read_bag : forall key x l a mn w, In (key, Some x, Some l) cm_rows -> bag_of 10 l = Some (a, mn) -> Lang (re_of x) w ->
+  bnames (brun a (map BAdd w)) = w /\ Forall (fun o => o = BOk) (bouts a ([], 0) (map BAdd w)) /\ bverdict mn (brun a (map BAdd w)) = true.
+Proof.
+  intros key x l a mn w I B L. apply (proj1 (cm_row_sound key x l (forallb_In _ _ _ cm_rows_ok9 I))) in L. apply (C02_bag l a mn w B L).
+Qed.
+Print Assumptions C09_valid_children_read_bag.
+(* any file: on the sequence machine, whatever children are offered - valid or not - if every add returns normally then the
+   children emitted are a permutation of the children of the file: none is dropped, none invented (an add that raises aborts the parse) *)
+Local Opaque mstep.
+Lemma ins_adds w : forall s, Forall (fun o => o = MOk) (mouts s (map MAdd w)) ->
+  map snd (ins (fold_left (fun s o => fst (mstep s o)) (map MAdd w) s)) = (map snd (ins s) ++ w)%list.
+Proof.
+  induction w as [|a w IH]; intros s F; cbn [map mouts fold_left] in *.
+  - rewrite app_nil_r. reflexivity.
+  - apply Forall_cons_iff in F as [Ha Hw]. cbv beta in Ha. rewrite (IH _ Hw). pose proof (C06_spec_list s (MAdd a)) as Sp. cbv beta iota in Sp. rewrite Ha in Sp.
+    rewrite Sp. rewrite map_app. simpl. rewrite <- app_assoc. reflexivity.
+Qed.
+Local Transparent mstep.
+Theorem C09_no_child_silently_lost_seq : forall t w, Forall (fun o => o = MOk) (mouts (minit t) (map MAdd w)) ->
+  Permutation (AbsSeq.names (AbsSeq.ordered (tree (parse_children t w)))) w.
+Proof.
+  intros t w F. unfold parse_children. pose proof (C06_machine t (map MAdd w)) as P. apply (Permutation_map snd) in P.
+  unfold AbsSeq.names. eapply Permutation_trans; [exact P|]. unfold mrun. rewrite (ins_adds w (minit t) F). simpl. apply Permutation_refl.
+Qed.
+Print Assumptions C09_no_child_silently_lost_seq.
+
 (* RC19: the parser strips the text of every element, also of xs:string typed ones: " a " is read as "a" *)
 Example C09_refuted_strip : strip (cp " a ") = cp "a" /\ xsd_valid xsd_st 8 "xs:string" (cp " a ") = true.
 Proof. vm_compute. auto. Qed.
